@@ -301,8 +301,33 @@ def two_files(chk, world, canon, wdw, tier):
             os.unlink(dbs[k])
 
 
+def tlaps_proof(chk):
+    """SpowtdProof.tla: NoMixture proved by TLAPS for ARBITRARY argument sets (TLC explores two values each)"""
+    import re
+    import shutil as sh
+    wd = workdir("tlaps")
+    try:
+        for f in ("Spowtd.tla", "SpowtdProof.tla"):
+            sh.copy(os.path.join(VERIF, "spec", f), wd)
+        p = subprocess.run(["tlapm", "SpowtdProof.tla"], cwd=wd, capture_output=True, text=True, timeout=1500)
+        out = p.stdout + p.stderr
+        m = re.search(r"All (\d+) obligations proved", out)
+        if m:
+            chk.cov["tlaps_obligations"] = int(m.group(1))
+            chk.cov["tlaps_discharged"] = int(m.group(1))
+            chk.notes.append("TLAPS: Spec => []NoMixture proved for arbitrary argument sets (%s obligations, SpowtdProof.tla)" % m.group(1))
+        else:
+            f = re.search(r"(\d+)/(\d+) obligations failed", out)
+            raise MachineryError("TLAPS proof of NoMixture did not go through: %s" % (f.group(0) if f else out[-400:]))
+    except FileNotFoundError:
+        chk.notes.append("tlapm not available: TLAPS proof skipped (no claim depends on it)")
+    finally:
+        rm(wd)
+
+
 def c20(chk, tier):
     q = tier == "quick"
+    tlaps_proof(chk)
     chk.level = "model_checking"
     chk.cov["rule"] = (
         "TLC explores Spowtd.tla exhaustively (every history of classify / set-zeta-grid / set-curvature / rise / "
